@@ -222,8 +222,7 @@ impl<'a> Tokinizer<'a> {
         
         for (token_index, token) in self.tokens.iter().enumerate() {
             match token.deref() {
-                TokenType::Operator('=') | 
-                TokenType::Operator('(')=> {
+                TokenType::Operator('=') => {
                     index = token_index as usize + 1;
                     break;
                 },
@@ -247,6 +246,15 @@ impl<'a> Tokinizer<'a> {
 
         while index < self.tokens.len() {
             match self.tokens[index].deref() {
+                TokenType::Operator('(') => {
+                    /* A parenthesis starts an operand */
+                    if operator_required {
+                        self.tokens.insert(index, Rc::new(TokenType::Operator('+')));
+                        index += 1;
+                    }
+                    operator_required = false;
+                },
+                TokenType::Operator(')') => operator_required = true,
                 TokenType::Operator(_) => operator_required = false,
                 _ => {
                     if operator_required {
